@@ -180,13 +180,32 @@ Proof.
   - apply hex_of_form; exact H.
 Qed.
 
+(* bytes below 256 by an exhaustive sweep, larger numbers because no form byte is that large *)
+Definition byte_range : list N := map N.of_nat (seq 0 256).
+Lemma byte_range_in : forall c, c < 256 -> In c byte_range.
+Proof.
+  intros c H. unfold byte_range. apply in_map_iff. exists (N.to_nat c). split; [apply N2Nat.id|].
+  apply in_seq. lia.
+Qed.
+Lemma lower_form_byte_sweep :
+  forallb (fun c => implb (form_byte (to_lower_ascii c)) (uuid_text_byte c)) byte_range = true.
+Proof. vm_compute. reflexivity. Qed.
+Lemma form_byte_small : forall d, 256 <= d -> form_byte d = false.
+Proof.
+  intros d H. unfold form_byte.
+  assert (Hle : forall k, k < 256 -> (d <=? k) = false) by (intros k Hk; apply N.leb_gt; lia).
+  assert (Heq : forall k, k < 256 -> (d =? k) = false) by (intros k Hk; apply N.eqb_neq; lia).
+  cbn [bs bytes_of_string existsb N_of_ascii]. cbn.
+  rewrite !Hle, !Heq by lia. rewrite !andb_false_r. reflexivity.
+Qed.
 Lemma lower_form_byte : forall c, form_byte (to_lower_ascii c) = true -> uuid_text_byte c = true.
 Proof.
-  intros c. unfold form_byte, uuid_text_byte, to_lower_ascii.
-  cbn [bs bytes_of_string existsb N_of_ascii]. cbn.
-  destruct ((65 <=? c) && (c <=? 90)) eqn:U; intros H;
-    repeat (apply orb_true_iff in H; destruct H as [H|H]); try discriminate H;
-    repeat rewrite orb_true_iff; lia.
+  intros c H. destruct (N.lt_ge_cases c 256) as [L|G].
+  - pose proof (proj1 (forallb_forall _ _) lower_form_byte_sweep c (byte_range_in c L)) as S.
+    cbn beta in S. rewrite H in S. exact S.
+  - unfold to_lower_ascii in H. replace ((65 <=? c) && (c <=? 90)) with false in H
+      by (symmetry; apply andb_false_iff; right; apply N.leb_gt; lia).
+    rewrite (form_byte_small c G) in H. discriminate H.
 Qed.
 
 Lemma ws_run_bytes : forall cps, Forall Proofs.Uuid.is_ws cps ->
